@@ -19,6 +19,8 @@ EXPLANATION = (
   "(ORD-repoint) region references are redirected to the retained region before aliased regions are removed; (LINT-c) the safe-area "
   "range test is satisfiable, i.e. values outside 0..30 are actually rejected."
   " (STATE-alias / STATE-global) no function of the anchored modules mutates a module- or class-level container, rebinds module / class state or mutates a mutable default argument, so a result never depends on earlier calls;"
+  " (INDEP) tts:origin and tts:position are resolved by independent statements;"
+  " (STATE-instance) no filter method other than the constructor writes instance state (one tabled report flag);"
 )
 RULE_TEXT = "per live loop, per (target kind, property), per external compute() call, per get_body() use, per range test"
 UNDECIDED = ["the text visible at every time is preserved", "idempotence", "merged regions are equivalent (timing, writing mode, alignment as values)",
